@@ -95,6 +95,15 @@ def generate(rng, tier):
             els, coords = rand_closed_path(rng, how)
             sc = scale2(coords) * (1 + len(coords) / 8.0)
             yield path_area(els, sc, how)
+            if how == 'generic':
+                # a small shape far from the origin whose outline stops a hair short of its start point before Z: the closing line is tiny but its
+                # contribution to the area (1/2 start x gap) is not
+                ox, oy = rng.choice([1000.0, -2500.0, 3e4]), rng.choice([1000.0, 700.0, -3e4])
+                w_, h_ = rng.uniform(0.01, 0.5), rng.uniform(0.01, 0.5)
+                gap = 10.0 ** rng.uniform(-9, -6.2)
+                pts_ = [(ox, oy), (ox + w_, oy), (ox + w_, oy + h_), (ox, oy + h_), (ox + gap * rng.choice([-1, 1]), oy + gap)]
+                e2 = 'M ' + H(*pts_[0]) + ' ' + ' '.join('L ' + H(*q) for q in pts_[1:]) + ' Z'
+                yield path_area(e2, ox * ox + oy * oy, 'nearly-closed-far')     # rounding of the products x_i * y_j, not of the area, sets the scale
             a = [grid(rng, 4, 2) for _ in range(6)] if rng.random() < 0.5 else [rng.uniform(-3, 3) for _ in range(6)]
             det = a[0] * a[3] - a[1] * a[2]
             if 1e-3 <= abs(det) <= 1e3:
